@@ -42,9 +42,16 @@ def run(rep, tier, prop="C01", extra_kinds=()):
         common.guarded(rep, "C03.3", c03.c03_3, rep, ix, M, cc_, br_)
     common.guarded(rep, "C03.5", c03.c03_5, rep, ix, M)
     if P == "C01":
+        # what the reader reports for the re-read text (parameters, variables) is that load's own data: the module tables hold nothing of an
+        # earlier - possibly failed - load (shared with C12)
+        from . import c05 as _c05
+        _c05.shared_tables(rep, ix, M.G)
         # the symbols SymPy prints are the ones the reader created: plain Symbol(<token text>), no assumptions that make SymPy rewrite the expression
         from . import c08
         common.guarded(rep, "C08.1", c08.c08_1, rep, ix, M.G)
+    # writing a program leaves it as it was (a second serialisation, or an operation sharing the same list, gives the same text): shared with C13
+    from . import c13
+    common.guarded(rep, "C13.1", c13.c13_1, rep, common.eff(rep), ix)
     common.guarded(rep, P + ".9", redeclaration, rep, ix, P + ".9")
     rep.rule(P + ".4", "script structure: metadata keywords, option and argument lists, statement lines and mode lists have the shapes the grammar prescribes; elements are separated by ', '", floor=8)
     common.guarded(rep, P + ".4", tser.structure, rep, P + ".4", ix, M)
